@@ -5,7 +5,10 @@ use crate::{
     Cell, Point, Settings,
 };
 use indexmap::IndexMap;
+#[cfg(not(feature = "verif"))]
 use once_cell::sync::Lazy;
+#[cfg(feature = "verif")]
+use crate::verif::Lazy;
 use std::{
     collections::{BTreeMap, HashMap},
     iter::FromIterator,
